@@ -58,10 +58,12 @@ const (
 	// DuplicateSiblingLeaves: a gate has two direct leaf children of the same party;
 	// boolexpr.NewThresholdGateAccessStructure returns an error.
 	DuplicateSiblingLeaves
-	// OneColumn: every single party is qualified on its own (all-OR tree, single leaf, hierarchical single level
-	// with threshold 1). The access structure itself is constructible and IsQualified is defined, but the induced
-	// span programme has one column and dealing over it is refused by design (kw.NewDealerFunc requires >= 2 rows
-	// in the random column).
+	// OneColumn: the induced span programme has a single column (boolexpr tree whose gates are all 1-of-n, i.e.
+	// 1 + Σ_gates (K-1) = 1; hierarchical policy whose largest threshold is 1). Every single party is then
+	// qualified on its own. The access structure itself is constructible and IsQualified is defined, but dealing
+	// over the programme is refused by design (kw.NewDealerFunc requires >= 2 rows in the random column).
+	// Note: a tree such as T2(0,1,T1(0),T1(1)) also qualifies every single party but has two columns and is
+	// shared normally; use Entry.P.AllSingletonsQualified() for that (ISN has no unqualified set to work with).
 	OneColumn
 )
 
@@ -81,7 +83,7 @@ func entry(p *policy.Policy) Entry {
 	switch {
 	case p.Kind == policy.BoolExpr && p.Tree.HasDuplicateSiblingLeaves():
 		e.Refusal = DuplicateSiblingLeaves
-	case p.AllSingletonsQualified():
+	case p.Kind == policy.BoolExpr && p.Tree.Columns() == 1, p.Kind == policy.Hierarchical && p.MaxThreshold() == 1:
 		e.Refusal = OneColumn
 	}
 	return e
@@ -138,7 +140,7 @@ func Hierarchicals(minN, maxN, maxLevels int) []Entry {
 
 // BoolExprs: every threshold-gate tree with <= 2 gate levels, <= maxLeaves leaves over <= maxParties parties,
 // leaves repeated across subtrees, up to renaming of parties (maxLeaves=3: 159, 4: 1589, 5: 17215 for 4 parties).
-// All-OR trees are marked OneColumn.
+// Trees whose gates are all 1-of-n are marked OneColumn.
 func BoolExprs(maxLeaves, maxParties int) []Entry {
 	return entries(policy.BoolExprs(maxLeaves, maxParties, false))
 }
@@ -148,24 +150,24 @@ func BoolExprsRefused(maxLeaves, maxParties int) []Entry {
 	return entries(policy.BoolExprs(maxLeaves, maxParties, true))
 }
 
-// Standard returns the DESIGN §4 catalogue. quick: n <= 4 (threshold and unanimity to 5), CNF n<=4 up to
-// relabelling (labelled for n=3), hierarchical n <= 4, boolexpr <= 4 leaves. thorough: threshold/unanimity/CNF to
-// n=6 (CNF labelled for n <= 4), hierarchical n <= 5, boolexpr <= 5 leaves. Refused policies are included
-// (Entry.Refusal says so); filter with Accepted.
+// Standard returns the DESIGN §4 catalogue. quick (461 + 1589 policies): threshold, unanimity, hierarchical and CNF
+// to n = 5 (CNF up to relabelling, labelled for n = 3), boolexpr <= 4 leaves. thorough: threshold/unanimity/CNF to
+// n = 6 (every labelled CNF for n <= 5, one per relabelling orbit for n = 6), hierarchical n <= 5, boolexpr <= 5
+// leaves. Policies with Refusal == OneColumn are included (Entry.Refusal says so); filter with Accepted.
 func Standard(tier string) []Entry {
 	var out []Entry
 	if tier == "thorough" {
 		out = append(out, Thresholds(2, 6)...)
 		out = append(out, Unanimities(2, 6)...)
-		out = append(out, CNFs(2, 6, 4)...)
+		out = append(out, CNFs(2, 6, 5)...)
 		out = append(out, Hierarchicals(2, 5, 3)...)
 		out = append(out, BoolExprs(5, 4)...)
 		return out
 	}
 	out = append(out, Thresholds(2, 5)...)
 	out = append(out, Unanimities(2, 5)...)
-	out = append(out, CNFs(2, 4, 3)...)
-	out = append(out, Hierarchicals(2, 4, 3)...)
+	out = append(out, CNFs(2, 5, 3)...)
+	out = append(out, Hierarchicals(2, 5, 3)...)
 	out = append(out, BoolExprs(4, 4)...)
 	return out
 }
